@@ -15,6 +15,7 @@ import (
 	"image/color"
 	"os"
 	"runtime"
+	"strings"
 	"sync"
 
 	prism "github.com/mandykoh/prism"
@@ -85,6 +86,7 @@ func setup() {
 		srcCMYK.Pix[i] = byte(i*3 + 1)
 	}
 	canvas = image.NewRGBA64(image.Rect(0, 0, 64*5, 4*9))
+	buildStructured()
 	files = map[string][]byte{}
 	for _, s := range seeds.Built() {
 		switch s.Name {
@@ -110,6 +112,14 @@ func setup() {
 	}
 	for i := 0; i < 12; i++ {
 		prof := build.SimpleProfile(build.TextDesc(fmt.Sprintf("standalone profile %d", i)), 100+i*41)
+		if i%2 == 1 {
+			// v4 descriptions: several records, an English one among them, texts of different lengths and scripts
+			en := fmt.Sprintf("Display profile %d %s", i, strings.Repeat("wide gamut ", i))
+			prof = build.SimpleProfile(build.Mluc([]build.MlucRec{
+				{Lang: [2]byte{'d', 'e'}, Country: [2]byte{'D', 'E'}, Text: fmt.Sprintf("Anzeigeprofil %d", i*i)},
+				{Lang: [2]byte{'e', 'n'}, Country: [2]byte{'U', 'S'}, Text: en},
+				{Lang: [2]byte{'j', 'a'}, Country: [2]byte{'J', 'P'}, Text: strings.Repeat("ディスプレイ", 1+i%4)}}, []int{2, 0, 1}, nil, i%3), 100+i*41)
+		}
 		for k := 4; k < 128; k++ {
 			if k < 24 || k >= 40 { // keep the date and the signature
 				prof[k] = byte(k*(i+3) + i*29)
@@ -134,6 +144,63 @@ func setup() {
 	}
 	bp, _ := build.PNG{W: 3, H: 3, Depth: 8, ColorType: 2, Pre: []build.Chunk{build.RawICCPChunk("toolong-name-without-terminator-................................................................", []byte{1})}, IDAT: []byte{1}}.Bytes()
 	damaged = append(damaged, bp, []byte("\x89PNG\r\n\x1a\n\x00\x00\x00\x0dIHDX"), []byte("RIFF\x04\x00\x00\x00WEBX"))
+}
+
+// seqPar1: in the sequential reference process every image transform runs with parallelism 1 (what a transform
+// writes does not depend on the number of workers), so that the reference cannot share a fault that only exists
+// between the workers of one call
+var seqPar1 bool
+
+func workers(n int) int {
+	if seqPar1 {
+		return 1
+	}
+	return n
+}
+
+// structured sources: flat rows, flat columns, one colour, checkers, letterbox, mostly transparent - content that
+// run-length shortcuts, per-row caches and "same as the previous pixel" paths key on - in four pixel formats
+var structured []image.Image
+
+func buildStructured() {
+	const w, h = 128, 40
+	pal := []color.NRGBA64{{R: 65535, G: 0, B: 0, A: 65535}, {R: 0, G: 40000, B: 65535, A: 65535}, {R: 12345, G: 54321, B: 999, A: 30000}, {R: 0, G: 0, B: 0, A: 65535}, {R: 65535, G: 65535, B: 65535, A: 65535}, {R: 500, G: 600, B: 700, A: 0}, {R: 30000, G: 30000, B: 30000, A: 65535}}
+	at := func(kind, x, y int) color.NRGBA64 {
+		switch kind {
+		case 0:
+			return pal[y%5]
+		case 1:
+			return pal[x%5]
+		case 2:
+			return pal[2]
+		case 3:
+			return pal[((x/8)+(y/8))%2]
+		case 4:
+			if y < 6 || y >= h-6 {
+				return pal[3]
+			}
+			return color.NRGBA64{R: uint16(x * 509), G: uint16(y * 1601), B: uint16(x*y + 7), A: 65535}
+		default:
+			if x >= 40 && x < 90 && y >= 10 && y < 30 {
+				return pal[(x+y)%2]
+			}
+			return pal[5]
+		}
+	}
+	r := image.Rect(0, 0, w, h)
+	for kind := 0; kind < 6; kind++ {
+		a, b, c, d := image.NewRGBA64(r), image.NewNRGBA64(r), image.NewNRGBA(r), image.NewRGBA(r)
+		for y := 0; y < h; y++ {
+			for x := 0; x < w; x++ {
+				v := at(kind, x, y)
+				a.Set(x, y, v)
+				b.SetNRGBA64(x, y, v)
+				c.Set(x, y, v)
+				d.Set(x, y, v)
+			}
+		}
+		structured = append(structured, a, b, c, d)
+	}
 }
 
 func space(i int) *sp.API { return &sp.Spaces[i%len(sp.Spaces)] }
@@ -205,7 +272,7 @@ func run(op trial.Op, g int) uint64 {
 		if a%2 == 1 {
 			src = srcNRGBA
 		}
-		par := 1 + a%8
+		par := workers(1 + a%8)
 		b := src.Bounds()
 		var dst interface {
 			image.Image
@@ -225,9 +292,34 @@ func run(op trial.Op, g int) uint64 {
 			s.EncodeImage(dst, src, par)
 		}
 		return digest(*pix)
+	case "TransformContent":
+		src := structured[a%len(structured)]
+		par := workers([]int{2, 3, 4, 8, 16}[(a/24)%5])
+		var pix *[]byte
+		var dst interface {
+			image.Image
+			Set(int, int, color.Color)
+		}
+		switch (a / 120) % 3 {
+		case 0:
+			d := image.NewRGBA64(src.Bounds())
+			dst, pix = d, &d.Pix
+		case 1:
+			d := image.NewRGBA(src.Bounds())
+			dst, pix = d, &d.Pix
+		default:
+			d := image.NewNRGBA64(src.Bounds())
+			dst, pix = d, &d.Pix
+		}
+		if a&1024 == 0 {
+			s.LineariseImage(dst, src, par)
+		} else {
+			s.EncodeImage(dst, src, par)
+		}
+		return digest(*pix)
 	case "TransformBig":
 		// a transform large enough to still be running when the next goroutines start theirs (crowd trials)
-		par := []int{2, 4, 8, 16}[a%4]
+		par := workers([]int{2, 4, 8, 16}[a%4])
 		b := srcBig.Bounds()
 		d := image.NewRGBA64(b)
 		if a&4 == 0 {
@@ -241,7 +333,7 @@ func run(op trial.Op, g int) uint64 {
 		// call have workers of their own
 		srcs := []image.Image{srcPal, srcGray16, srcCMYK, srcYCbCr}
 		src := srcs[a%len(srcs)]
-		par := []int{2, 3, 4, 8}[(a/4)%4]
+		par := workers([]int{2, 3, 4, 8}[(a/4)%4])
 		d := image.NewRGBA64(src.Bounds())
 		if a&64 == 0 {
 			s.LineariseImage(d, src, par)
@@ -255,7 +347,7 @@ func run(op trial.Op, g int) uint64 {
 		tile := image.Rect((g%64)*5, (g/64)*9, (g%64)*5+5, (g/64)*9+9)
 		dst := canvas.SubImage(tile).(*image.RGBA64)
 		src := srcNRGBA.SubImage(image.Rect(2, 3, 7, 12))
-		par := 1 + a%4
+		par := workers(1 + a%4)
 		if a&8 == 0 {
 			s.LineariseImage(dst, src, par)
 		} else {
@@ -268,7 +360,7 @@ func run(op trial.Op, g int) uint64 {
 		}
 		return digest(px)
 	case "ConvertImage":
-		par := 1 + a%8
+		par := workers(1 + a%8)
 		switch a % 3 {
 		case 0:
 			return digest(prism.ConvertImageToRGBA64(srcYCbCr, par).Pix)
@@ -343,6 +435,23 @@ func run(op trial.Op, g int) uint64 {
 	panic("unknown op " + op.Name)
 }
 
+// walk runs the whole list Reps times, moving every argument on by Walk per repetition; one digest per operation
+// accumulates all repetitions
+func walk(tr trial.Trial, ops []trial.Op, g int) []uint64 {
+	res := make([]uint64, len(ops))
+	reps := tr.Reps
+	if reps < 1 {
+		reps = 1
+	}
+	for r := 0; r < reps; r++ {
+		for i, op := range ops {
+			op.Arg += r * tr.Walk
+			res[i] = digest(res[i], run(op, g))
+		}
+	}
+	return res
+}
+
 func main() {
 	if len(os.Args) < 3 {
 		fmt.Fprintln(os.Stderr, "usage: child trial.json conc|seq")
@@ -361,7 +470,12 @@ func main() {
 	setup()
 	out := make([][]uint64, len(tr.Goroutines))
 	if os.Args[2] == "seq" {
+		seqPar1 = true
 		for g, ops := range tr.Goroutines {
+			if tr.Walk > 0 {
+				out[g] = walk(tr, ops, g)
+				continue
+			}
 			for _, op := range ops {
 				out[g] = append(out[g], run(op, g))
 			}
@@ -389,6 +503,10 @@ func main() {
 					for i := 0; i < tr.Yields[g%len(tr.Yields)]; i++ {
 						runtime.Gosched()
 					}
+				}
+				if tr.Walk > 0 {
+					out[g] = walk(tr, ops, g)
+					return
 				}
 				res := make([]uint64, 0, len(ops))
 				for _, op := range ops {
